@@ -99,15 +99,18 @@ chk("C17", "model_checking",
 chk("C10", "exploration",
     "A property of the compiled artefact: the specification contributes the secrecy policy, the acceptance rule and TLC-checked mechanism models (Leakage.tla, self-composition over toy secrets, "
     "kept counterexamples for the leaky variants). The verdict comes from dynamic analysis of the release binary: memcheck with the secret bytes marked undefined (a report is a candidate) and lock-step "
-    "comparison of the instruction-address + data-address sequence between two markers (valgrind lackey) for six secrets per operation, which confirms or refutes candidates and is also run unconditionally on a subset (thorough: all).",
-    "Finite secrets and operations; AVX-512 code cannot run under valgrind 3.19 (v512 not covered); nothing below the instruction/address level is observed.",
-    "memcheck secret-taint + lackey lock-step instruction/address traces; TLA+ policy and mechanism models", "DESIGN.md 5/C10")
+    "comparison of the instruction-address + data-address sequence between two markers (valgrind lackey) for seven secrets per operation (structured, algebraic boundary values, random), which is run on every candidate (a second pass uses 16 secrets) and unconditionally on a subset (thorough: all). "
+    "A taint report that no tested secret reproduces is reported too (the unchanged tree raises none). The AVX-512 IFMA build, which valgrind cannot execute, is single-stepped natively with ptrace between the same markers "
+    "and its instruction-address sequences are compared the same way.",
+    "Finite secrets and operations; for the AVX-512 build only the instruction-address sequence is observed, not data addresses; nothing below the instruction/address level is observed.",
+    "memcheck secret-taint + lackey / ptrace lock-step instruction and address traces; TLA+ policy and mechanism models", "DESIGN.md 5/C10, 14.2")
 chk("C11", "model_checking",
-    "Bounds.tla / BoundsAvx2.tla: limb-bound factors through every kernel contract and group formula (serial u64, u32; AVX2 per lane), TLC explores all chains of formulas from the inductive type invariant and checks every kernel "
-    "precondition at every program point (re-deriving b < 1.01/1.6/2.33/1.6), with kept counterexamples; toy kernels show no intermediate exceeds its word. Conformance: kernels from raw limbs at the contract boundary and group formulas on "
+    "Bounds.tla / BoundsAvx2.tla / BoundsIfma.tla: limb-bound factors through every kernel contract, group formula, exponent chain, square root, encoder, decoder and map (serial u64, u32; AVX2 per lane; AVX-512 IFMA per lane and limb over the "
+    "limb-exact kernel model IfmaField.tla), TLC explores all chains of formulas from the inductive type invariant and checks every kernel precondition at every program point (re-deriving b < 1.01/1.6/2.33/1.6), with kept counterexamples; "
+    "toy kernels show no intermediate exceeds its word. Conformance: IFMA vector operations are validated limb for limb, directed extreme operands (tools/ifma_extreme.json) through mul / negate_lazy / diff_sum; kernels from raw limbs at the contract boundary and group formulas on "
     "all-limbs-at-the-bound coordinates in builds with overflow checks and debug assertions (6 backends), AVX2 kernels from raw lanes at every documented pre-bound, and checked = release on the public-API master script.",
     "Factor arithmetic over-approximates; only concrete executions (panic, wrong value, checked != release) are violations.",
-    "TLA+ bound-propagation models + TLC + checked-build / boundary-representation trace validation", "DESIGN.md 5/C11")
+    "TLA+ bound-propagation models + TLC + checked-build / boundary-representation trace validation", "DESIGN.md 5/C11, 14.4, 14.6")
 
 NOT_YET = {}
 
